@@ -273,7 +273,7 @@ def main(tier, seed, workers=None):
             case = {"spec": r["spec"], "form": r["form"], "env": {"FLOW_RECORD_TZ": envkey[0], "TZ": envkey[1]}}
             key = (r["spec"], r["form"])
             viol = [("C13:%s" % v[0], case, v[1]) for v in r["viol"]]
-            run.add_result({"ev": 1, "h": jhash([key, envkey]), "nt": "rejected" not in r, "out": "rejected" if "rejected" in r else ("ok" if not viol else "viol"),
+            run.add_result({"ev": 1, "h": jhash([key, envkey]), "nt": "rejected" not in r, "out": "%s:%s" % (r["form"], "rejected" if "rejected" in r else ("ok" if not viol else "viol")),
                             "viol": viol})
             per_case.setdefault(key, {})[envkey] = (r.get("rejected"), r["h"])
             if len(run.samples) < 4 and jhash(key)[0] == "0":
